@@ -759,6 +759,12 @@ func specReturnBase(bp, numLocals int) int {
 	return bp
 }
 
+// specIsCopier: the value has a Copy method (modules are deep-copied on store).
+func specIsCopier(o Object) bool {
+	_, ok := o.(Copier)
+	return ok
+}
+
 // specLoadModule: what LOADMODULE pushes: the cached module and false when the
 // cache slot is filled, otherwise the module constant and true (the compiled
 // code then initialises the module and executes STOREMODULE).
